@@ -103,8 +103,19 @@ func buildIntrinsics() map[string]Intrinsic {
 	}
 	I["vndChoice"] = func(th *Thread, fn *ssa.Function, a []Value) Value {
 		n := th.concreteInt(a[1].(*term.Term), "vndChoice n")
-		c := th.m.choose("choice", n)
-		th.m.newChoiceInput(constStr(th, a[0]), uint64(c))
+		name := constStr(th, a[0])
+		var c int
+		if fx := th.m.H.Fixed; fx != nil {
+			if arr := fx[name]; th.m.inputCount[name] < len(arr) {
+				c = int(arr[th.m.inputCount[name]])
+			}
+			if c >= n {
+				c = 0
+			}
+		} else {
+			c = th.m.choose("choice", n)
+		}
+		th.m.newChoiceInput(name, uint64(c))
 		return T(th).Const(64, uint64(c))
 	}
 	I["vndParam"] = func(th *Thread, fn *ssa.Function, a []Value) Value {
@@ -516,14 +527,65 @@ func buildIntrinsics() map[string]Intrinsic {
 	I["(time.Time).UnixNano"] = func(th *Thread, fn *ssa.Function, a []Value) Value {
 		return a[0].(*StructV).f[1]
 	}
+	mkTime := func(th *Thread, tt types.Type, ns *term.Term) Value {
+		s := th.m.zero(tt).(*StructV)
+		s.f[fieldIndex(tt, "ext")] = ns
+		return s
+	}
+	ext := func(v Value) *term.Term { return v.(*StructV).f[1].(*term.Term) }
+	I["time.Unix"] = func(th *Thread, fn *ssa.Function, a []Value) Value {
+		t := th.m.T
+		sec, nsec := a[0].(*term.Term), a[1].(*term.Term)
+		return mkTime(th, fn.Signature.Results().At(0).Type(), t.Add(t.Mul(sec, t.Const(64, 1_000_000_000)), nsec))
+	}
+	I["(time.Time).After"] = func(th *Thread, fn *ssa.Function, a []Value) Value { return th.m.T.SLt(ext(a[1]), ext(a[0])) }
+	I["(time.Time).Before"] = func(th *Thread, fn *ssa.Function, a []Value) Value { return th.m.T.SLt(ext(a[0]), ext(a[1])) }
+	I["(time.Time).Equal"] = func(th *Thread, fn *ssa.Function, a []Value) Value { return th.m.T.Eq(ext(a[0]), ext(a[1])) }
+	I["(time.Time).IsZero"] = func(th *Thread, fn *ssa.Function, a []Value) Value {
+		return th.m.T.Eq(ext(a[0]), th.m.T.Const(64, 0))
+	}
+	I["(time.Time).Add"] = func(th *Thread, fn *ssa.Function, a []Value) Value {
+		return mkTime(th, fn.Signature.Results().At(0).Type(), th.m.T.Add(ext(a[0]), a[1].(*term.Term)))
+	}
+	I["(time.Time).Sub"] = func(th *Thread, fn *ssa.Function, a []Value) Value { return th.m.T.Sub(ext(a[0]), ext(a[1])) }
+	I["time.Since"] = func(th *Thread, fn *ssa.Function, a []Value) Value { return th.m.T.Sub(th.m.now(th), ext(a[0])) }
+	I["time.NewTicker"] = func(th *Thread, fn *ssa.Function, a []Value) Value {
+		m := th.m
+		pt := fn.Signature.Results().At(0).Type().(*types.Pointer).Elem()
+		p := m.newCell(pt)
+		s := m.loadRef(p).(*StructV)
+		tt := pt.Underlying().(*types.Struct).Field(fieldIndex(pt, "C")).Type().Underlying().(*types.Chan).Elem()
+		n := m.H.Params["ticks"]
+		ch := &ChanV{cap: n + 1, id: m.newID(), elem: tt}
+		for i := 0; i < n; i++ {
+			ch.buf = append(ch.buf, m.zero(tt))
+		}
+		s.f[fieldIndex(pt, "C")] = ch
+		return p
+	}
+	I["(*time.Ticker).Stop"] = func(th *Thread, fn *ssa.Function, a []Value) Value { return nil }
 	return I
 }
 
 func (th *Thread) callerWhere() string { return th.where() }
 
-// now returns the current time of the modelled clock.
+// now returns the current time of the modelled clock: a fixed instant unless the harness asks
+// for a symbolic clock (param "clock"=1), in which case every call returns an arbitrary instant
+// that is not earlier than the previous one and lies inside a range where int64 nanoseconds do not
+// overflow under the additions the code performs.
 func (m *Machine) now(th *Thread) *term.Term {
-	return m.T.Const(64, 1_700_000_000_000_000_000)
+	if m.H.Params["clock"] != 1 || !m.initDone {
+		return m.T.Const(64, 1_700_000_000_000_000_000)
+	}
+	t := m.newInput("now", 64)
+	T := m.T
+	lo, hi := T.Const(64, 1_000_000_000_000_000_000), T.Const(64, 4_000_000_000_000_000_000)
+	m.assume(T.And(T.SLe(lo, t), T.SLe(t, hi)))
+	if m.lastNow != nil {
+		m.assume(T.SLe(m.lastNow, t))
+	}
+	m.lastNow = t
+	return t
 }
 
 func intrinsicName(fn *ssa.Function) string {
